@@ -161,6 +161,8 @@ class Visitor(Generic[Result]):
                 return self.mapping(origin, args[0], args[1])
             if is_literal(tp):
                 return self.literal(args)
+        if origin is TUPLE_TYPE and getattr(tp, "__args__", None) == ():
+            return self.tuple(())  # Tuple[()] has no args since Python 3.11
         if origin in PRIMITIVE_TYPES:
             return self.primitive(origin)
         if is_dataclass(origin):
